@@ -9,8 +9,8 @@ UNIT = {
                   {'file': 'riscv_analysis/src/analysis/available.rs', 'item': 'fn rule_expand_address_for_load'}],
     'obligations': [
         {'id': 'values_n.claims', 'recipe': ['values-search'], 'props': ['C01', 'C06'], 'kind': 'bounded',
-         'bound': '4440 programs x 6 initial register files: every R-type operator on a 14x14 operand grid in five operand shapes incl. x0; every I-type '
-                  'operator; 31 hand-written programs with sp arithmetic, save/restore, sub-word and overlapping stores, extreme offsets, forward branches '
+         'bound': '4442 programs x 6 initial register files: every R-type operator on a 14x14 operand grid in five operand shapes incl. x0; every I-type '
+                  'operator; 33 hand-written programs with sp arithmetic, save/restore, sub-word and overlapping stores, extreme offsets, forward branches '
                   'and joins, loops, calls to convention-respecting functions (executed for real, one entry snapshot per activation; execution stops at a return that leaves sp or a saved register changed), a function entered at two labels, a slot below sp across a call, a fact about gp on a path falling into a function entry',
          'clause': 'every Constant / entry-value-plus-constant claim attached before or after an executed instruction, and every stack-slot claim of such a '
                    'value, equals what an RV32IM interpreter computes; the analysis never panics',
